@@ -48,6 +48,9 @@ Definition eval (c : case) : list bool :=
    && ares_eqb (apply_gateway f) (o_create o)
    && ares_eqb (apply_controller f) (o_ctrl o)
    && ares_eqb (apply_limiter f) (o_lim o)
+   && opt_eqb (list_eqb (fun a b : bool * Z * bool =>
+                 (Bool.eqb (fst (fst a)) (fst (fst b)) && Z.eqb (snd (fst a)) (snd (fst b)) && Bool.eqb (snd a) (snd b))%bool))
+              (policy_views f) (o_pols o)
    && oracle_laws f)%bool
   :: clauses f o.
 
